@@ -11,20 +11,17 @@ package main
 // twice (close sweep on in the callback).
 //@ func probeHandler(w http.ResponseWriter, r *http.Request)
 //@   props C13
-//@   flag nosafety safety-keep=nil
 //@   requires w != nil && r != nil
 //
 // The notification channel is closed by the once-guarded closure only: the first data channel that opens closes it,
 // the others find the Once done (pion runs OnOpen once per channel, the prober decides how many channels there are).
 //@ func makePeerConnectionFromOffer$1$1$1()
 //@   props C13
-//@   flag nosafety safety-close
 //   (runs only inside opened.Do: the Once has not completed, and nothing else closes the channel)
 //@   assumes dataChan != nil && !closed(dataChan)
 //
 //@ func makePeerConnectionFromOffer$1$1()
 //@   props C13
-//@   flag nosafety safety-close
 //   (the channel is closed only inside opened.Do - closed-world: this is the only close of it - so it is open as
 //   long as the Once has not completed)
 //@   assumes dataChan != nil && (closed(dataChan) ==> oncedone(&opened))
